@@ -260,6 +260,70 @@ Section WithState.
     end.
 End WithState.
 
+(* ================= C13: FIFO admission and the multiplex bound, from the start/stop events =================
+   The implementation reports, per read, the transfers it started and ended, in order (hook
+   events).  They are replayed on the model state before the read (after the FDT session has run):
+   a start must take an object of the waiting list such that no object ahead of it in the list
+   (= added earlier, or re-queued earlier) of the same queue is ready at that moment, and after
+   every start the number of objects of the queue that are in transmission is at most the number
+   of slots max(1, multiplex_files). *)
+Section C13Events.
+  Variable fdt_npk : N -> nat.
+  Variable fdt_ok : N -> bool.
+  Variable divf : Z -> N -> option Z.
+
+  Fixpoint split_toi (s : st) (toi : N) (l : list nat) : option (list nat * nat * list nat) :=
+    match l with
+    | [] => None
+    | id :: r => if toi_of s id =? toi then Some ([], id, r)
+                 else match split_toi s toi r with
+                      | Some (a, x, b) => Some (id :: a, x, b)
+                      | None => None
+                      end
+    end.
+
+  Definition in_transmission (s : st) (p : N) : list nat :=
+    filter (fun id => let f := obj s id in
+                      t_transferring (f_t f) && (o_prio (f_o f) =? p) && negb (is_some (o_fdtid (f_o f))))
+           (seq 0 (length (objs s))).
+
+  Definition slots_of (s : st) (p : N) : nat :=
+    match find (fun q => q_prio q =? p) (squeues s) with
+    | Some q => length (q_sessions q)
+    | None => 0%nat
+    end.
+
+  Inductive c13_verdict := C13ok | C13notWaiting | C13fifo | C13multiplex.
+
+  Fixpoint c13_events (s : st) (now : Z) (evs : list event) : c13_verdict :=
+    match evs with
+    | [] => C13ok
+    | EvStart toi :: r =>
+      match split_toi s toi (queue s) with
+      | None => C13notWaiting
+      | Some (ahead, id, rest) =>
+        let p := o_prio (f_o (obj s id)) in
+        if existsb (fun i => should_transfer_now (obj s i) p (full_fdt s) now) ahead then C13fifo
+        else
+          match transfer_started divf id now (set_queue s (ahead ++ rest)) with
+          | RPanicked _ => C13ok
+          | ROk _ s1 =>
+            if Nat.leb (length (in_transmission s1 p)) (slots_of s1 p) then c13_events s1 now r
+            else C13multiplex
+          end
+      end
+    | EvStop toi :: r =>
+      match find (fun id => (toi_of s id =? toi) && t_transferring (f_t (obj s id)))
+                 (seq 0 (length (objs s))) with
+      | None => c13_events s now r
+      | Some id => c13_events (transfer_done id now s) now r
+      end
+    end.
+
+  Definition P_C13_events (s : st) (now : Z) (evs : list event) : c13_verdict :=
+    c13_events (snd (run_fdt_session fdt_npk fdt_ok divf now s)) now evs.
+End C13Events.
+
 (* ---------- the trace of a run of the model, in the vocabulary of the predicates ---------- *)
 Section ModelTrace.
   Variable fdt_npk : N -> nat.
